@@ -467,6 +467,9 @@ class ViewsHooks(Hooks):
                 it.probe('two_segmented_planes')
             if tag.get('caller_write'):
                 it.probe('phasor_after_caller_write')
+            if tag.get('attribute_update'):
+                it.probe('phasor_after_attribute_update')
+                it.fault('attribute_update')
             if not out.value['ok']:
                 it.violate('C07.phasor', {'what': 'pointwise-phasor', 'nplanes': min(tag.get('nplanes', 1), 3)}, out.value['detail'], i)
         elif fn == 'check.phasor' and not out.ok:
@@ -508,7 +511,7 @@ class ViewsScenario(OpticsBase):
                    'NaN/inf accumulators are replaced by loud finite garbage: before + w*intensity is NaN by arithmetic there']
     must_hit = ['three_fields_overlap', 'clip:lo0', 'clip:hi0', 'clip:lo1', 'clip:hi1', 'clip:outside', 'scalar_plane',
                 'two_segmented_planes', 'px_conflict', 'default_plane', 'nfields:1', 'nfields:3+', 'disjoint_pair_bridged',
-                'phasor_after_caller_write']
+                'phasor_after_caller_write', 'phasor_after_attribute_update']
     probe_names = must_hit + ['coldwarm_audit']
 
     def program(self, rng, world, force=None):
@@ -554,6 +557,7 @@ class ViewsScenario(OpticsBase):
         npup = force.get('npup') or rng.choice([1, 1, 2, 3])
         for j in range(npup):
             opd_ref = None
+            amp_plane = None
             sname = 'S' if j == 0 or rng.random() < 0.6 else 'S2'
             if rng.random() < 0.15 and j > 0:
                 p = b.E('Pupil', None, {'amplitude': rng.choice([0.7, 1.0]), 'opd': rng.choice([0.0, 2.1e-7]), 'focal_length': ph['f']}, tag='p')
@@ -575,11 +579,15 @@ class ViewsScenario(OpticsBase):
                     kw['opd'] = rng.choice([0.0, 1e-7])
                 p = b.E('Pupil', None, kw, tag='p')
                 opd_ref = kw['opd'] if isinstance(kw['opd'], str) else None
+                if rng.random() < 0.5 and opd_ref is not None:
+                    opd_ref = kw['amplitude']           # the caller's in-place write goes to the amplitude array instead
+                amp_plane = (p, sname) if 'mask' not in kw or rng.random() < 0.5 else None
                 if k > 1:
                     flags['nseg'] += 1
                 if rng.random() < 0.25 or spread:
                     p = b.E('Plane.fit_tilt', ['@' + p], tag='p')
                     opd_ref = None      # the fitted copy no longer views the caller's array
+                    amp_plane = None
                     flags['spread'] = flags.get('spread') or spread
             planes.append(p)
             w_before = w
@@ -587,9 +595,21 @@ class ViewsScenario(OpticsBase):
             b.E('check.phasor', ['@' + w, ['@' + x for x in planes], ph['wl']],
                 t={'nplanes': len(planes), 'scalar_plane': flags['scalar'], 'two_segmented': flags['nseg'] >= 2}, tag='c')
             views(w)
+            if amp_plane is not None and (rng.random() < 0.25 or force.get('caller_write')):
+                # the caller assigns a new amplitude / OPD through the documented attributes and sends the wavefront through again
+                what = rng.choice(['amplitude', 'opd'])
+                newa = b.A({'kind': 'uniform' if what == 'amplitude' else 'normal', 'shape': amp_plane[1], 'lo': 0.3, 'hi': 1.0,
+                            'sigma': 3e-8, 'seed': b.sd()})
+                b.E('setattr', ['@' + amp_plane[0], what, '@' + newa], tag='s')
+                w = mul(amp_plane[0], w_before, attribute_update=True)
+                b.E('check.phasor', ['@' + w, ['@' + x for x in planes], ph['wl']],
+                    t={'nplanes': len(planes), 'attribute_update': True}, tag='c')
             if opd_ref is not None and (rng.random() < 0.25 or force.get('caller_write')):
                 # the caller edits its own OPD array in place (the plane holds a view of it) and sends the wavefront through again
-                b.events.append({'env': 'perturb', 'target': opd_ref, 'scale': 2e-8, 'seed': b.sd()})
+                pe = {'env': 'perturb', 'target': opd_ref, 'seed': b.sd()}
+                if opd_ref == kw.get('opd'):
+                    pe['scale'] = 2e-8          # OPD-sized; an amplitude array gets a perturbation of its own magnitude
+                b.events.append(pe)
                 w = mul(p, w_before, caller_write=True)
                 b.E('check.phasor', ['@' + w, ['@' + x for x in planes], ph['wl']],
                     t={'nplanes': len(planes), 'caller_write': True}, tag='c')
@@ -985,6 +1005,11 @@ class TiltScenario(OpticsBase):
                 rng.choice([[d1, ph['wl'] - off], [rng.choice([0.5, 1e-3]), d1, ph['wl'] - off]])
             if len(tr) == 2 and len(dp) == 2:
                 tr = [2.0, 0.3, 0.0]
+            if rng.random() < 0.4 or force.get('high_order'):
+                # legal zero-padded coefficient lists: formally of higher order, effectively first order
+                dz = b.E('DispersiveTilt', None, {'trace': [0.0, rng.choice([0.5, -1.2]), rng.choice([0.0, 1e-4])],
+                                                 'dispersion': rng.choice([[d1, ph['wl'] - off], [0.0, d1, ph['wl'] - off]])}, tag='d')
+                b.E('check.trace', ['@' + dz, ph['wl']], tag='c')
             dh = b.E('DispersiveTilt', None, {'trace': tr, 'dispersion': dp}, tag='d')
             b.E('check.trace', ['@' + dh, ph['wl']], tag='c')
         return b.events
